@@ -26,7 +26,8 @@ const DICT: [&str; 20] = ["-", "--", "-x", "--num=3", "-hh", "--helpx", "-H", "r
 /// lengths around the places where an echoed argument makes the cause text cross 128 bytes,
 /// and some far beyond (up to 10 kB)
 fn long_len() -> BoxedStrategy<usize> {
-    prop_oneof![4 => 60usize..140, 2 => 140usize..1024, 1 => 1024usize..10241].boxed()
+    // ... and around the multiples of 256 (a length kept in a byte would wrap there)
+    prop_oneof![4 => 60usize..140, 2 => 140usize..1024, 2 => 250usize..=360, 1 => 505usize..=620, 1 => 1024usize..10241, 1 => prop::sample::select(vec![4096usize, 4100, 65_536, 65_600])].boxed()
 }
 
 fn utf8_short() -> BoxedStrategy<Vec<u8>> {
@@ -34,7 +35,8 @@ fn utf8_short() -> BoxedStrategy<Vec<u8>> {
 }
 
 fn utf8_long() -> BoxedStrategy<Vec<u8>> {
-    (prop::collection::vec(prop::sample::select(CHARS.to_vec()), 1..6), long_len())
+    // half of the long values are one uninterrupted run of plain letters (what `{:?}` writes in one piece)
+    (prop_oneof![1 => prop::collection::vec(prop::sample::select(CHARS.to_vec()), 1..6), 1 => prop::collection::vec(prop::sample::select(vec!['a', 'b', 'Z', '7']), 1..4)], long_len())
         .prop_map(|(chunk, len)| {
             let chunk: String = chunk.into_iter().collect();
             let mut s = String::new();
